@@ -20,7 +20,8 @@ LEVEL = "exploration"
 RULE = ("stimuli: every notification shape of the catalogue (picture set/delete, status, contacts add/remove/update/sync, group "
         "create/add/remove/subject, encrypt key-count/identity-change) plus notifications of unknown type (with optional participant "
         "and an arbitrary child), call stanzas of kind offer / transport / relaylatency / reject / terminate / none, server pings, "
-        "text-type messages whose payload is a revoke, an image under type text, empty or made of unknown fields (1:1 and group), "
+        "text-type messages whose payload is a revoke, an image under type text, empty or made of unknown fields (1:1 and group; in groups "
+        "also merged with a sender key, as a re-sent copy is), "
         "media-type messages with an unknown media type (media module present), and the picture notification that is neither set "
         "nor delete (outside the guarantee, only labelled); each generated stimulus runs in all 32 configurations. Non-trivial = "
         "participant present, or unknown type, or a configuration with a module left out. Every (stimulus, configuration) pair is "
@@ -61,6 +62,13 @@ def payload(kind, text):
         # field 40 (length-delimited) is not in the schema: e.g. a reaction
         body = (text or "x").encode("utf-8")[:50]
         return bytes([(40 << 3 | 2) & 0x7F | 0x80, (40 << 3 | 2) >> 7, len(body)]) + body
+    if kind.endswith("+skdm"):
+        # what a group member gets when the sender answers its retry request: the sender key merged with the original content
+        inner = Message()
+        inner.ParseFromString(payload(kind[:-5], text))
+        inner.sender_key_distribution_message.group_id = "4915100000021-1500000001@g.us"
+        inner.sender_key_distribution_message.axolotl_sender_key_distribution_message = b"\x33" * 40
+        return inner.SerializeToString()
     if kind == "location":
         m.location_message.degrees_latitude = 1.5
         m.location_message.degrees_longitude = 2.5
@@ -255,7 +263,8 @@ def plan(tier):
         strategies.append(("ping_with_id_of_pending_" + how,
                            S.shape_strategy(ping).map(lambda t, _h=how: {"sub": "ack", "kind": "ping", "collide": _h, "tree": S.tree_to_json(t)}), n))
     for group in (False, True):
-        for pk in ("revoke", "revoke_default_type_omitted", "image_as_text", "empty", "unknown_fields"):
+        for pk in ("revoke", "revoke_default_type_omitted", "image_as_text", "empty", "unknown_fields") + \
+                (("revoke+skdm", "image_as_text+skdm", "unknown_fields+skdm") if group else ()):
             attrs = dict(_msg_attrs(group), type=S.CONST("text"))
             blob = S.Kind("PAYLOAD_" + pk, S.TEXT.strategy.map(lambda s, _pk=pk: payload(_pk, s)), is_bytes=True)
             shape = S.N("message", attrs, children=[S.N("proto", {}, data=blob)])
